@@ -3,7 +3,7 @@ from ..rules import idioms, flow, lifecycle, delivery
 from .common import declare
 
 RULES = ['SPLIT-CARRY', 'SEEN-SET', 'PROPAGATE', 'STOP-CHECK', 'ATOMIC-RMW', 'SINGLE-FLIGHT']
-FLOORS = {'SPLIT-CARRY': 5, 'SEEN-SET': 3, 'PROPAGATE': 2, 'STOP-CHECK': 1, 'ATOMIC-RMW': 1, 'SINGLE-FLIGHT': 1}
+FLOORS = {'SPLIT-CARRY': 4, 'SEEN-SET': 3, 'PROPAGATE': 1, 'STOP-CHECK': 1, 'ATOMIC-RMW': 1, 'SINGLE-FLIGHT': 1}
 
 META = {
     'level': "Static analysis of from_textfile._run and filenames._run as 'idiom + one library lemma': split is applied to carry ++ "
@@ -27,7 +27,7 @@ def run(ctx, R):
     R.run(idioms.check_split_carry, ctx, R)
     R.run(idioms.check_seen_set, ctx, R)
     R.run(flow.check_propagate, ctx, R, modules=('streamz.sources',), note_modules=())
-    for k in [k for k in R.obs if k[0] == 'PROPAGATE' and not any(s in k[1] for s in ('from_textfile', 'filenames'))]:
+    for k in [k for k in R.obs if k[0] == 'PROPAGATE' and not any(s in k[1] for s in ('from_textfile', 'filenames', '.Source.'))]:
         del R.obs[k]
     R.run(lifecycle.check_stop_check, ctx, R, [(so, so.methods['run'])])
     R.run(delivery.check_atomic_rmw, ctx, R, [(tf, tf.methods['_run']), (fl, fl.methods['_run'])])
